@@ -627,6 +627,18 @@ def run(chk):
                     chk.violation(r_lb, key, "%s: the loop runs while `%s %s %s.size()%s` and reads `%s[%s%s]`: in its last iteration the index is %s.size()%+d, outside the sequence (unchecked operator[])" % (
                         f["q"], iv, op, cont, ("%+d" % boff) if boff else "", cont, iv, ("%+d" % m) if m else "", cont, boff + m - (1 if op in ("<", "!=") else 0)), f["file"], sl)
 
+    # ---- C20.meet: cursors that approach each other leave the loop on an ordering test
+    r_me = chk.rule("C20.meet", "a loop in which one integer cursor is moved up and another moved down and whose exit compares the two: the exit is an ordering test (`a >= b`, `a < b`), never an equality - when both cursors move in one iteration they cross without ever being equal, run off both ends of the sequence they index and the loop does not end", floor=1)
+    from verif import meet
+    for f in fx.fns:
+        if not f.get("body") or not f["file"].startswith(core.REPO + "/opm/"):
+            continue
+        for l_, ttext, is_eq, a_, b_ in meet.analyse(f):
+            key = "%s@%d" % (f["q"], l_)
+            chk.instance(r_me, key, sample=dict(function=f["q"], test=ttext, cursors=[a_, b_], equality=is_eq))
+            if is_eq:
+                chk.violation(r_me, key, "%s: the loop ends on the equality test `%s` although `%s` and `%s` move towards each other inside it: when both move in one iteration they cross unequal, and the accesses they index leave the sequence" % (f["q"], ttext, a_, b_), f["file"], l_)
+
     r_cu = chk.rule("C20.cursor", "token cursors (an index compared with V.size(), used in V[idx] and advanced by the code): every V[idx] is preceded on every path by a test that establishes idx < V.size() since the last advance; where the end is tested with equality the cursor is never advanced from a state that may already be the end", floor=40)
     n_cursors = 0
     for f in fx.fns:
